@@ -739,4 +739,9 @@ theorem srcOf_cell (row : Row) (sl : Slot) (c : Cell) (h : srcOf row sl = .ok (.
     · rename_i c' hc; cases h; exact ⟨j, rfl, getCell_ok _ _ _ hc⟩
     · cases h
 
+theorem mem_take_of_lt {α : Type} (l : List α) (n k : Nat) (a : α) (hk : k < n)
+    (h : l[k]? = some a) : a ∈ l.take n := by
+  have : (l.take n)[k]? = some a := by rw [List.getElem?_take]; simp [hk, h]
+  exact List.mem_of_getElem? this
+
 end Xls
